@@ -35,7 +35,7 @@ def make_record(rng, sps, nslots, pattern):
     return bits
 
 
-def check_eye(ctx, e, a, b, sigma, sps, tag):
+def check_eye(ctx, e, a, b, sigma, sps, tag, nslots=None):
     d = b - a
     fields = ["mu0", "mu1", "s0", "s1", "threshold", "t_left", "t_right", "t_opt", "i"]
     vals = {k: getattr(e, k, None) for k in fields}
@@ -45,7 +45,8 @@ def check_eye(ctx, e, a, b, sigma, sps, tag):
     ok = True
     ok &= ctx.check("eye.levels", abs(e.mu0 - a) <= 0.08 * d and abs(e.mu1 - b) <= 0.08 * d, f"{tag}: mu0={e.mu0!r}, mu1={e.mu1!r} not within 8% of (b-a) of the levels a={a!r}, b={b!r}", swing=d)
     lo, hi = sigma / 2, 2 * sigma + 0.03 * d
-    ok &= ctx.check("eye.sigmas", lo <= e.s0 <= hi and lo <= e.s1 <= hi, f"{tag}: s0={e.s0!r}, s1={e.s1!r} outside [sigma/2, 2 sigma + 3%(b-a)] = [{lo!r},{hi!r}]", swing=d)
+    ok &= ctx.check("eye.sigmas", lo <= e.s0 <= hi and lo <= e.s1 <= hi, f"{tag}: s0={e.s0!r}, s1={e.s1!r} outside [sigma/2, 2 sigma + 3%(b-a)] = [{lo!r},{hi!r}]", swing=d,
+                    nslots=nslots, s_over_sigma=[float(e.s0 / sigma), float(e.s1 / sigma)], above=bool(e.s0 > hi or e.s1 > hi))
     ok &= ctx.check("eye.threshold", e.mu0 < e.threshold < e.mu1, f"{tag}: threshold {e.threshold!r} not between mu0={e.mu0!r} and mu1={e.mu1!r}", swing=d)
     ok &= ctx.check("eye.timing", abs((e.t_right - e.t_left) - 1) <= 0.1, f"{tag}: crossings t_left={e.t_left!r}, t_right={e.t_right!r} are not one slot apart", swing=d)
     ok &= ctx.check("eye.timing", abs(e.t_opt - (e.t_left + e.t_right) / 2) <= 1 / 128 + 1e-12, f"{tag}: t_opt={e.t_opt!r} is not midway between the crossings ({(e.t_left + e.t_right) / 2!r})", swing=d)
@@ -78,17 +79,22 @@ def w_eye(ctx, rng, i):
         noise = rng.normal(0, 1, unit.size)
         y = a + swing * unit + sigma * noise
         form = int(rng.integers(3))
+        if i % 11 == 0 and swing >= 1:              # quantised record (ADC codes of a 10-bit converter over the swing), integer dtype
+            q = swing / 1024
+            y = np.round(y / q).astype(int)
+            a, b, sigma, swing = a / q, b / q, sigma / q, swing / q
+            form = 2 * int(rng.integers(2))
         x = T.electrical_signal(y) if form == 0 else (T.electrical_signal(a + swing * unit, sigma * noise) if form == 1 else y)
         d0 = core.digest(y)
         np.random.seed(seed)
         e = D.GET_EYE(x, sps_resamp=128)
         ctx.check("input_unchanged", core.digest(y) == d0, "GET_EYE modified its input")
-        ok = check_eye(ctx, e, a, b, sigma, sps, "record")
+        ok = check_eye(ctx, e, a, b, sigma, sps, "record", nslots)
         # equivariance twin under the same numpy seed
         y2 = alpha * y + beta
         np.random.seed(seed)
         e2 = D.GET_EYE(T.electrical_signal(y2), sps_resamp=128)
-        ok2 = check_eye(ctx, e2, alpha * a + beta, alpha * b + beta, alpha * sigma, sps, f"scaled record (alpha={alpha:.3g})")
+        ok2 = check_eye(ctx, e2, alpha * a + beta, alpha * b + beta, alpha * sigma, sps, f"scaled record (alpha={alpha:.3g})", nslots)
         if ok and ok2:
             sw2 = alpha * swing
             good = abs(e2.mu0 - (alpha * e.mu0 + beta)) <= 0.005 * sw2 and abs(e2.mu1 - (alpha * e.mu1 + beta)) <= 0.005 * sw2
@@ -109,4 +115,13 @@ WORKLOADS = [
 
 
 def classify(v):
+    """mechanism key of a violation, from the conditions of the failing case (never from seeds or values)."""
+    info = v.get("info") or {}
+    if v.get("monitor") == "eye.sigmas" and isinstance(info, dict):
+        r = info.get("s_over_sigma")
+        ns = info.get("nslots")
+        if isinstance(r, dict):
+            r = r.get("nd")
+        if ns is not None and ns <= 130 and r and not info.get("above") and all(x >= 0.3 for x in r):
+            return "sigma-underestimated-on-short-records"
     return None
